@@ -104,12 +104,14 @@ def _data_specs(rng, kind, K, D, F, N, E):
                         'seed': seed, 'layout': layout,
                         'sep': float(_choice(rng, [0.5, 2.0, 4.0])),
                         'scale': float(_choice(rng, [1.0, 1.0, 1.0, 1e-2, 30.0])),
+                        'offset': float(_choice(rng, [0, 0, 0, 0, 1e3, 3e5])),
                         'order': _choice(rng, ['shuffled', 'shuffled', 'sorted'])}
     if kind == 'gcacgmm':
         specs['emb'] = {'kind': 'rclusters', 'shape': lead + [N, E], 'K': K,
                         'seed': int(rng.randint(2 ** 31)), 'layout': 'C',
                         'sep': float(_choice(rng, [0.5, 2.0])),
                         'scale': float(_choice(rng, [1.0, 1.0, 1e-2, 30.0])),
+                        'offset': float(_choice(rng, [0, 0, 0, 0, 1e3, 3e5])),
                         'order': _choice(rng, ['shuffled', 'shuffled', 'sorted'])}
     specs['init'] = {'kind': _choice(rng, ['affiliation', 'affiliation',
                                            'affiliation_onehotish']),
@@ -118,7 +120,7 @@ def _data_specs(rng, kind, K, D, F, N, E):
                      'layout': _choice(rng, ['C', 'C', 'F'])}
     sk = _choice(rng, ['none', 'none', 'real', 'int'])
     if sk == 'real':
-        sc = float(_choice(rng, [1.0, 1.0, 1.0, 1e-2, 1e-4]))
+        sc = float(_choice(rng, [1.0, 1.0, 1.0, 1e-2, 1e-4, 1e-12]))
         specs['saliency'] = {'kind': 'uniform', 'low': 0.2 * sc, 'high': 1.8 * sc,
                              'shape': lead + [N],
                              'seed': int(rng.randint(2 ** 31))}
